@@ -283,11 +283,33 @@ def cognate_threshold_pairs(chk):
                 used[-1].append([list(r) for r in item[2]])
                 yield item
         lex._get_matrices = spy
+        interleave = rng.random() < 0.4
+        if interleave:
+            chk.hist['threshold sweep on an object with other analyses before and between the runs (other method, restriction=cv)'] += 1
+
+        def other_analysis():
+            # another analysis on the same object, written to another column: another method, or the same method with another option
+            used.append([])
+            try:
+                om = rng.choice([m_ for m_ in METHODS[:3] if m_ != method] + ([method] if method == 'edit-dist' else []))
+                okw = {'restriction': 'cv'} if om == 'edit-dist' and rng.random() < 0.7 else {}
+                lex.cluster(method=om, cluster_method=rng.choice(cl.LINKS), threshold=rng.choice([0.3, 0.5, 0.7]), ref='lingpyid', override=True, **okw)
+            except Exception:  # noqa
+                pass
+            used.pop()
         try:
+            if interleave:
+                other_analysis()
+                if method == 'edit-dist':
+                    used.append([])
+                    lex.cluster(method='edit-dist', cluster_method=link, threshold=0.5, ref='lingpyid', override=True, restriction='cv')
+                    used.pop()
             for t in ts:
                 used.append([])
                 lex.cluster(method=method, cluster_method=link, threshold=t, ref='customid', override=True)
                 parts.append(partition_of({k: lex[k, 'customid'] for k in lex}, list(lex)))
+                if interleave and rng.random() < 0.5:
+                    other_analysis()
         finally:
             del lex._get_matrices
         chk.count(('cog-pair', method, link, tuple(ts), tuple(sorted((k, tuple(map(str, v))) for k, v in d.items()))), parts[0] != parts[-1],
